@@ -382,6 +382,14 @@ func Run(p *Prop, env *Env) int {
 		for _, t := range c.Tags {
 			res.Distribution["tag:"+t]++
 		}
+		if p.FeedImpl {
+			// what the implementation actually did (background actions, park/done, errors)
+			for _, o := range impls[i] {
+				if f := strings.Fields(o); len(f) > 0 && len(f[0]) < 24 && !strings.ContainsAny(f[0], ":,=") {
+					res.Distribution["impl:"+f[0]]++
+				}
+			}
+		}
 		if p.Nontrivial == nil || p.Nontrivial(c, impls[i]) {
 			nontriv[c.Hash()] = true
 		}
